@@ -102,6 +102,41 @@ def run(ctx):
     check_cse_mixin(ctx, model)
 
 
+def _is_math_log(model, mem, v):
+    """the call is pymbolic.functions.log(...) -- i.e. math.log, the spelling
+    the function table differentiates -- or Lookup(Variable("math"), "log")
+    built on the spot"""
+    name = v[1]
+    callee = v[4] if len(v) > 4 else None
+    if isinstance(callee, tuple) and callee[0] == "call" and \
+            callee[1].split(".")[-1] == "Lookup" and len(callee[2]) == 2 and \
+            callee[2][1] == ("const", "log") and "math" in str(callee[2][0]):
+        return True
+    if name.startswith("self."):
+        # an attribute of the mapper whose class-level default is math.log
+        dm = mem.owner
+        am = dm.members.get(name[5:])
+        if am is not None and am.kind in ("value", "ann"):
+            val = am.node.value if am.kind == "ann" else am.node
+            src = ast.unparse(val).replace(" ", "") if val is not None else ""
+            if src.endswith("Lookup(primitives.Variable('math'),'log')") or \
+                    src.endswith("Lookup(Variable('math'),'log')"):
+                return True
+    fn = mem.node
+    for st in ast.walk(fn):
+        if isinstance(st, ast.ImportFrom) and st.module == "pymbolic.functions":
+            for a in st.names:
+                if (a.asname or a.name) == name and a.name == "log":
+                    return True
+    imp = mem.owner.module.imports.get(name.split(".")[0])
+    if imp == ("attr", "pymbolic.functions", "log"):
+        return True
+    if imp in (("module", "pymbolic.functions"), ("attr", "pymbolic", "functions")) \
+            and name.endswith(".log"):
+        return True
+    return False
+
+
 def _is_log_function(dm, callee):
     """the callee is the symbol `log`: Variable("log") / var("log") built on the
     spot, or an attribute of the mapper whose class-level default is that"""
@@ -391,6 +426,7 @@ def _quotient_power(ctx, model, dm):
     for slot, (ncls, ff, gf) in specs.items():
         mem = model.lookup(dm, slot)
         loc = where(mem)
+        log_spellings = set()
 
         def atoms(v, ff=ff, gf=gf):
             if v == und(ff):
@@ -406,6 +442,11 @@ def _quotient_power(ctx, model, dm):
             if v[0] == "call" and v[2] == (und(ff),) and _is_log_function(
                     dm, v[4] if len(v) > 4 else
                     ("self", v[1][5:]) if v[1].startswith("self.") else None):
+                log_spellings.add("bare")
+                return "L"
+            if v[0] == "call" and v[2] == (und(ff),) and _is_math_log(
+                    model, mem, v):
+                log_spellings.add("math")
                 return "L"
             if v[0] == "binop" and v[1] == "Pow" and v[2] == und(ff):
                 e = v[3]
@@ -453,6 +494,23 @@ def _quotient_power(ctx, model, dm):
         ctx.ob(f"E/{slot}/has-general-case", "general" in cases, loc,
                f"cases {sorted(cases)}" if "general" in cases else
                f"{slot} has no general branch")
+        if slot == "map_power":
+            # sibling agreement: the logarithm the power rule writes down is the
+            # one the function table knows (math.log, as pymbolic.functions
+            # spells every elementary function)
+            if not log_spellings:
+                raise AnalysisError(f"{loc}: no logarithm in the power rule")
+            ok = log_spellings == {"math"}
+            ctx.ob("S/map_power/logarithm-is-the-table's", ok, loc,
+                   "the power rule writes math.log, which the function table "
+                   "differentiates and every evaluation context of an "
+                   "expression with elementary functions binds" if ok else
+                   "the power rule writes the logarithm as a bare function "
+                   "symbol 'log', while the library's elementary functions "
+                   "(and the table of derivatives) are math.<name>: the "
+                   "derivative of x**x cannot be evaluated where the input can "
+                   "(UnknownVariableError: log), and differentiating it once "
+                   "more raises 'unrecognized function'")
 
 
 def _conj(v, pol):
